@@ -41,6 +41,9 @@ def worker():
         # data_set / make_trainable (the tables then keep the initial weight 1)
         route = ["set", "data_set", "make_trainable"][(si + job.get("salt", 0)) % 3]
         has_setw = any(h["op"] == "setw" for h in st["hist"])
+        has_train = any(h["op"] == "trainw" for h in st["hist"])
+        if has_train:
+            route = "set"           # data_set is applied after the trainables and would override them: not the specification's order
         pstate, tvals = None, []
         sig = {"ntypes": len({e["ty"] for e in st["edges"]}), "ops": ",".join(sorted({h["op"] for h in st["hist"]})), "layout": job["layout"]}
         rank_in_type = {}
@@ -60,8 +63,15 @@ def worker():
                         elif route == "data_set":
                             pstate = view(net, h["ev"]).data_set(key, jnp.asarray(float(h["x"])), pstate)
                         else:
-                            view(net, h["ev"]).make_trainable(key, verbose=False)
+                            view(net, h["ev"]).make_trainable(key, init_val=float(h["x"]), verbose=False)
                             tvals.append((key, float(h["x"])))
+                    elif h["op"] == "trainw":
+                        key = h["ev"]["ty"] + "_w"
+                        tv = view(net, h["ev"])
+                        (tv.edge("all") if h["each"] and h["ev"]["kind"] == "type" else tv).make_trainable(key, init_val=float(h["x"]), verbose=False)
+                        tvals.append((key, float(h["x"])))
+                    elif h["op"] == "deltrain":
+                        view(net, h["ev"]).delete_trainables()
                     elif h["op"] == "sets":
                         view(net, h["ev"]).set(h["ev"]["ty"] + "_s", float(h["x"]))
                     elif h["op"] == "record":
@@ -99,9 +109,17 @@ def worker():
                 if pstate is not None:
                     kw["param_state"] = pstate
                 if tvals:
-                    params = net.get_parameters()
-                    assert len(params) == len(tvals)
-                    kw["params"] = [{k: jnp.full(np.asarray(p[k]).shape, x)} for p, (k, x) in zip(params, tvals)]
+                    kw["params"] = net.get_parameters()          # the values the trainables were created with (init_val)
+                    # the trainables themselves: groups of synapses and their values, in the order they were made
+                    got_tr = [{"groups": sorted(sorted(int(x) + 1 for x in row if int(x) >= 0) for row in np.asarray(inds)),
+                               "val": tok(np.asarray(list(p.values())[0])[0])}
+                              for inds, p in zip(net.indices_set_by_trainables, net.trainable_params)]
+                    want_tr = [{"groups": sorted(sorted(g) for g in t_["groups"]), "val": t_["val"]} for t_ in st.get("tr", [])]
+                    if route == "set" and got_tr != want_tr:
+                        res["mismatch"].append({"kind": "edge_table", **sig, "hist": st["hist"], "got": got_tr, "want": want_tr,
+                                                "route": route, "what": "trainables"})
+                        res["states"] += 1
+                        continue
                 for vs in job["backends"]:
                     out = np.asarray(jx.integrate(net, delta_t=DT, voltage_solver=vs, **kw))
                     states_ = list(net.recordings["state"])
@@ -134,12 +152,12 @@ def main(which):
     sd = C.seed()
     base = open(os.path.join(C.SPEC, "MC_Net.cfg")).read()
     import re
-    runs = [("net_a", {"MaxEdges": 3, "MaxEdits": 1, "SAMPLE": 250}), ("net_b", {"MaxEdges": 2, "MaxEdits": 2, "SAMPLE": 120})]
+    runs = [("net_a", {"MaxEdges": 3, "MaxEdits": 1, "SAMPLE": 320}), ("net_b", {"MaxEdges": 2, "MaxEdits": 2, "SAMPLE": 220})]
     if not quick:
         runs = [("net_full", {"MaxEdges": 3, "MaxEdits": 2, "SAMPLE": 1500})]
     if which == "C10":
         # synaptic half of C10: only the weight-edit histories matter (set / data_set / make_trainable routes)
-        runs = [("net_b", {"MaxEdges": 2, "MaxEdits": 2, "SAMPLE": 40 if quick else 8})]
+        runs = [("net_b", {"MaxEdges": 2, "MaxEdits": 2, "SAMPLE": 400 if quick else 60})]
     states = trans = 0
     sts = []
     model = None
@@ -166,11 +184,11 @@ def main(which):
     if len(sts) < 100:
         raise C.MachineryError("only %d observed states sampled" % len(sts))
     if which == "C10":
-        sts = [s for s in sts if any(h["op"] == "setw" for h in s["hist"])]
+        sts = [s for s in sts if any(h["op"] in ("setw", "trainw") for h in s["hist"])]
         if len(sts) < 300:
             raise C.MachineryError("only %d weight-edit histories sampled" % len(sts))
     ops = Counter(h["op"] for s in sts for h in s["hist"])
-    for need in (("connect", "setw") if which == "C10" else ("connect", "setw", "sets", "record", "delrec", "clamp", "stim")):
+    for need in (("connect", "setw", "trainw", "deltrain") if which == "C10" else ("connect", "setw", "sets", "record", "delrec", "clamp", "stim", "trainw", "deltrain")):
         if ops[need] == 0:
             raise C.MachineryError("vacuity: no sampled history contains %s" % need)
     backends = ["jaxley.thomas", "jax.sparse"] if quick else ["jaxley.stone", "jaxley.thomas", "jax.sparse"]
